@@ -58,8 +58,13 @@ def target(r, subs):
 def aff(r, d, subs):
     if d <= 0 or r.random() < 0.2:
         return target(r, subs) if r.random() < 0.6 else const(r, 1)
-    k = r.choice(["sum", "cl", "cr", "div", "prod3", "neg", "nest"])
+    k = r.choice(["sum", "cl", "cr", "div", "prod3", "neg", "nest", "shared"])
     g = lambda: aff(r, d - 1, subs)  # noqa: E731
+    if k == "shared":   # one composite sum both as the numerator of a quotient and elsewhere
+        s = p.Sum((g(), target(r, subs), const(r, 1)))
+        parts = [p.Quotient(s, r.choice([2, 3, N[0]])), p.Product((const(r, 1), s))]
+        r.shuffle(parts)
+        return p.Sum(tuple(parts))
     if k == "sum":
         return p.Sum(tuple(g() for _ in range(r.randint(1, 3))))
     if k == "cl":
@@ -199,6 +204,37 @@ def c_collect(ctx, case):
         ctx.fail("C15.collect", case, "reconstruction",
                  f"CoefficientCollector({names})({e}) = {_cs(co)}: sum of coefficient*variable + "
                  f"constant is {total}, the expression is {want}")
+        return
+    # history: ONE collector object used again -- for the whole expression and for its sums --
+    # must give what a fresh collector gives
+    cc = CoefficientCollector(names)
+    subs = [x for x in G.walk(e) if isinstance(x, p.Sum)][:4]
+    for step, sub in enumerate([e, *subs, e]):
+        ctx.case(None)
+        ctx.count("collector_reuse_calls")
+        try:
+            again = cc(sub)
+            fresh = CoefficientCollector(names)(sub)
+        except RecursionError:
+            raise
+        except Exception as ex:  # noqa: BLE001
+            ctx.fail("C15.collect", case, f"reuse-raised:{type(ex).__name__}", f"{sub}: {ex}")
+            return
+        if _cmap(again) != _cmap(fresh):
+            ctx.fail("C15.collect", case, "reuse-differs",
+                     f"call {step} on one CoefficientCollector({names}): {sub} -> {_cs(again)}, a "
+                     f"fresh collector gives {_cs(fresh)} (first call was on {e})")
+            return
+
+
+def _cmap(co):
+    out = {}
+    for k, v in co.items():
+        try:
+            out[repr(normal.typed_key(k))] = ratfun.from_expr(v)
+        except Exception:  # noqa: BLE001
+            out[repr(normal.typed_key(k))] = repr(normal.typed_key(v))
+    return {k: (repr(v.n), repr(v.d)) if isinstance(v, ratfun.R) else v for k, v in out.items()}
 
 
 def _degree_exceeds_one(rf, t):
